@@ -139,4 +139,37 @@ def canonIsoClause (a c : Sym) : Bool := c.wellFormed && isomorphic a c
 /-- "two connected D-symbols have equal canonical forms iff they are isomorphic" -/
 def separationClause (a b ca cb : Sym) : Bool := (ca == cb) == isomorphic a b
 
+/-! ### the per-seed codes (conclusions of the open proof obligations, evaluated on every case) -/
+
+/-- lexicographic `≤` on integer lists -/
+def lexLe : List Int → List Int → Bool
+  | [], _ => true
+  | _ :: _, [] => false
+  | x :: xs, y :: ys => x < y || (x == y && lexLe xs ys)
+
+/-- every seed's element map is a bijection of the chambers -/
+def seedsNumberAll (n : Nat) (maps : List (Array Nat)) : Bool :=
+  maps.all fun m => isBijection n m
+
+/-- all codes have one length -/
+def codesOneLength (codes : List (List Int)) : Bool :=
+  match codes with
+  | [] => true
+  | c :: cs => cs.all fun c' => c'.length == c.length
+
+/-- seeds with equal codes renumber the symbol to equal symbols -/
+def equalCodesEqualSymbols (a : Sym) (cms : List (List Int × Array Nat)) : Bool :=
+  let rec go : List (List Int × Array Nat) → List (List Int × Sym) → Bool
+    | [], _ => true
+    | (c, m) :: rest, seen =>
+      let r := renumber a m
+      match seen.find? (fun p => p.1 == c) with
+      | some p => p.2 == r && go rest seen
+      | none => go rest ((c, r) :: seen)
+  go cms []
+
+/-- `best` is one of the codes and no code is lexicographically smaller -/
+def isLeastCode (best : List Int) (codes : List (List Int)) : Bool :=
+  codes.contains best && codes.all fun c => lexLe best c
+
 end DSymVerif.SpecC03
